@@ -13,6 +13,7 @@ package main
 // OWNERS' answers as the expected outcomes, and go through the same model and predicates.
 
 import (
+	"bytes"
 	"context"
 	"errors"
 	"fmt"
@@ -48,6 +49,11 @@ type e2eCluster struct {
 	ghost     map[int32]bool // partition whose leader id (in the metadata) is not in the broker list
 	hidden    map[int32]bool // partition the metadata does not list
 	bootstrap int32
+	// cut responses: while a broker is in cutLO (cutOF), every ListOffsets (OffsetFetch) response it
+	// produces is written up to byte k only and the connection is then closed
+	cutLO     map[int32]int
+	cutOF     map[int32]int
+	cutFrame  int // length of the last frame subjected to a cut (4-byte size prefix included)
 	ctrlDials int // dials of the bootstrap address so far (the first one is the Transport's control connection)
 }
 
@@ -184,7 +190,38 @@ func (e *e2eCluster) serve(id int32, c net.Conn) {
 			e.mu.Unlock()
 			return
 		}
+		cutAt := -1
+		switch msg.(type) {
+		case *listoffsets.Request:
+			if k, ok := e.cutLO[id]; ok {
+				cutAt = k
+			}
+		case *offsetfetch.Request:
+			if k, ok := e.cutOF[id]; ok {
+				cutAt = k
+			}
+		}
 		e.mu.Unlock()
+		if cutAt >= 0 {
+			var buf bytes.Buffer
+			if err := protocol.WriteResponse(&buf, version, corr, res); err != nil {
+				return
+			}
+			frame := buf.Bytes()
+			e.mu.Lock()
+			e.cutFrame = len(frame)
+			e.mu.Unlock()
+			if cutAt < len(frame) {
+				if cutAt > 0 {
+					c.Write(frame[:cutAt])
+				}
+				return // the deferred Close loses the connection with the response cut at byte cutAt
+			}
+			if _, err := c.Write(frame); err != nil {
+				return
+			}
+			continue
+		}
 		if err := protocol.WriteResponse(c, version, corr, res); err != nil {
 			return
 		}
@@ -229,7 +266,8 @@ func (e *e2eCluster) fetchOne(owner bool, group string, p int32) offsetfetch.Res
 func genE2E(r *rand.Rand) (*e2eCluster, int) {
 	e := &e2eCluster{nb: 2 + r.Intn(3), topic: []string{"orders", "e2e-topic", "t"}[r.Intn(3)],
 		coord: map[string]int32{}, committed: map[string]map[int32]commitState{}, asked: map[int32]int{},
-		refuse: map[int32]bool{}, dropOnLO: map[int32]bool{}, ghost: map[int32]bool{}, hidden: map[int32]bool{}}
+		refuse: map[int32]bool{}, dropOnLO: map[int32]bool{}, ghost: map[int32]bool{}, hidden: map[int32]bool{},
+		cutLO: map[int32]int{}, cutOF: map[int32]int{}}
 	np := 2 + r.Intn(5)
 	for p := 0; p < np; p++ {
 		st := &partState{leader: int32(r.Intn(e.nb)), epoch: int32(r.Intn(9)), start: int64(r.Intn(500))}
@@ -575,5 +613,203 @@ func tierE2EFaults(r *rand.Rand, n int) {
 		}
 		e.close()
 		tr.CloseIdleConnections()
+	}
+}
+
+// ---------------------------------------------------------------- cut responses (hosted for C17)
+
+// fmtLoEntries is the canonical form of a ListOffsets result over the e2e topic.
+func (e *e2eCluster) fmtLoEntries(res *kafka.ListOffsetsResponse) string {
+	var entries []string
+	ps := append([]kafka.PartitionOffsets{}, res.Topics[e.topic]...)
+	sortPartitionOffsets(ps)
+	for _, p := range ps {
+		var ol []string
+		for _, o := range sortedOffsets(p.Offsets) {
+			ol = append(ol, I(o)+"="+fmtTime(p.Offsets[o]))
+		}
+		entries = append(entries, S(e.topic)+"/"+I(int64(p.Partition))+"/"+I(p.FirstOffset)+"/"+I(p.LastOffset)+"/"+code(p.Error)+"/"+join(ol, "+"))
+	}
+	return "R" + I(int64(res.Throttle/time.Millisecond)) + "@" + join(entries, ",")
+}
+
+// cutRegion names the part of a list-offsets v5 response frame byte k falls into:
+// size(4) correlation id(4) throttle(4) topic array length(4) topic name(2+n) partition array
+// length(4) partition(4) error(2) timestamp(8) offset(8) leader epoch(4).
+func cutRegion(k, frame, topicLen int) string {
+	switch {
+	case k >= frame:
+		return "not-cut"
+	case k == 0:
+		return "cut=nothing-sent"
+	case k < 4:
+		return "cut=size-prefix"
+	case k < 8:
+		return "cut=correlation-id"
+	case k < 12:
+		return "cut=throttle"
+	case k < 16:
+		return "cut=topic-array-length"
+	case k < 18+topicLen:
+		return "cut=topic-name"
+	case k < 22+topicLen:
+		return "cut=partition-array-length"
+	case k < 28+topicLen:
+		return "cut=partition-id-and-error"
+	case k < 44+topicLen:
+		return "cut=timestamp-and-offset"
+	}
+	return "cut=leader-epoch"
+}
+
+// tierCut: Client.ListOffsets over several partitions / leaders (and Client.OffsetFetch) through
+// the real Transport where, for one or more leaders, the response is delivered up to byte k and
+// the connection is then lost; k = 0, stride, 2*stride, ... past the end of the frame.  Each
+// ListOffsets case is followed by the same call once the brokers answer in full again.
+func tierCut(r *rand.Rand, stride int) {
+	if stride < 1 {
+		stride = 1
+	}
+	for k := 0; k <= 76; k += stride {
+		for rep := 0; rep < 2; rep++ {
+			e, bootstrap := genE2E(r)
+			tr := &kafka.Transport{Dial: e.dial, DialTimeout: 2 * time.Second}
+			client := &kafka.Client{Addr: kafka.TCP(e2eHost(bootstrap) + ":9092"), Transport: tr, Timeout: 5 * time.Second}
+			np := len(e.parts)
+			victims := map[int32]bool{e.parts[r.Intn(np)].leader: true}
+			if rep == 1 && r.Intn(2) == 0 {
+				victims[e.parts[r.Intn(np)].leader] = true
+			}
+			if rep == 1 && r.Intn(4) == 0 { // every leader
+				for _, st := range e.parts {
+					victims[st.leader] = true
+				}
+			}
+			e.mu.Lock()
+			for v := range victims {
+				e.cutLO[v] = k
+			}
+			e.mu.Unlock()
+			var reqs []kafka.OffsetRequest
+			for p := 0; p < np; p++ {
+				switch r.Intn(3) {
+				case 0:
+					reqs = append(reqs, kafka.FirstOffsetOf(p))
+				case 1:
+					reqs = append(reqs, kafka.LastOffsetOf(p))
+				default:
+					reqs = append(reqs, kafka.FirstOffsetOf(p), kafka.LastOffsetOf(p))
+				}
+				if r.Intn(4) == 0 {
+					reqs = append(reqs, kafka.OffsetRequest{Partition: p, Timestamp: 1600000000000 + int64(r.Intn(150))})
+				}
+			}
+			call := func(after bool) {
+				t0 := time.Now()
+				res, err := client.ListOffsets(context.Background(), &kafka.ListOffsetsRequest{Topics: map[string][]kafka.OffsetRequest{e.topic: reqs}})
+				slow := time.Since(t0) > 2*time.Second
+				e.mu.Lock()
+				frame := e.cutFrame
+				cutNow := !after && k < frame
+				ul := make([]string, len(reqs))
+				outs := make([]string, len(reqs))
+				pq := &listoffsets.Request{ReplicaID: -1, Topics: []listoffsets.RequestTopic{{Topic: e.topic}}}
+				nfail := 0
+				for i, q := range reqs {
+					ul[i] = I(int64(q.Partition)) + "/" + I(q.Timestamp)
+					if cutNow && victims[e.parts[q.Partition].leader] {
+						outs[i] = "F/2"
+						nfail++
+					} else {
+						a := e.listOffset(-1, e.topic, int32(q.Partition), q.Timestamp)
+						outs[i] = "A/" + I(int64(a.ErrorCode)) + "/" + I(a.Timestamp) + "/" + I(a.Offset) + "/" + I(int64(a.LeaderEpoch)) + "/0"
+					}
+					pq.Topics[0].Partitions = append(pq.Topics[0].Partitions, listoffsets.RequestPartition{Partition: int32(q.Partition), CurrentLeaderEpoch: -1, Timestamp: q.Timestamp})
+				}
+				e.mu.Unlock()
+				feats := []string{"cut-family", fmt.Sprintf("brokers=%d", e.nb), fmt.Sprintf("victims=%d", len(victims))}
+				switch {
+				case after:
+					feats = append(feats, "after-cut")
+				default:
+					feats = append(feats, cutRegion(k, frame, len(e.topic)))
+				}
+				switch {
+				case nfail == len(reqs):
+					feats = append(feats, "all-failed")
+				case nfail > 0:
+					feats = append(feats, "some-failed")
+				default:
+					feats = append(feats, "none-failed")
+				}
+				args := "0 " + S(e.topic) + ":" + strings.Join(ul, ",") + " " + join(outs, "~")
+				q := "Q" + fmtReq(pq, "@")
+				rs := ""
+				if err != nil {
+					rs = "E" + e2eErrClass(err)
+				} else {
+					rs = e.fmtLoEntries(res)
+				}
+				if slow {
+					rs += "SLOW"
+				}
+				emit("lo", args, q+" "+rs, append(feats, fmt.Sprintf("k=%d", k)))
+			}
+			call(false)
+			e.mu.Lock()
+			e.cutLO = map[int32]int{}
+			e.mu.Unlock()
+			call(true)
+
+			// ---- OffsetFetch: one round trip to the coordinator, its response cut the same way
+			group := fmt.Sprintf("grp-%d", r.Intn(e.nb+1))
+			e.mu.Lock()
+			e.cutFrame = 0
+			e.cutOF[e.coord[group]] = k
+			e.mu.Unlock()
+			ids := []int{}
+			for p := 0; p < np; p++ {
+				ids = append(ids, p)
+			}
+			fetch := func() string {
+				t0 := time.Now()
+				fres, err := client.OffsetFetch(context.Background(), &kafka.OffsetFetchRequest{GroupID: group, Topics: map[string][]int{e.topic: ids}})
+				st := "ok-state"
+				switch {
+				case err != nil:
+					st = "err"
+				default:
+					e.mu.Lock()
+					ps := fres.Topics[e.topic]
+					if len(ps) != np || fres.Error != nil {
+						st = "ok-BAD"
+					}
+					for _, p := range ps {
+						w := e.fetchOne(true, group, int32(p.Partition))
+						if p.Error != nil || p.CommittedOffset != w.CommittedOffset || p.Metadata != w.Metadata {
+							st = "ok-BAD"
+						}
+					}
+					e.mu.Unlock()
+				}
+				if time.Since(t0) > 2*time.Second {
+					st += "SLOW"
+				}
+				return st
+			}
+			first := fetch()
+			e.mu.Lock()
+			frame := e.cutFrame
+			e.cutOF = map[int32]int{}
+			e.mu.Unlock()
+			follow := fetch()
+			region := "cut"
+			if k >= frame {
+				region = "not-cut"
+			}
+			emit("cutof", I(int64(k))+" "+I(int64(frame)), "first="+first+" followup="+follow, []string{"cut-family", region, fmt.Sprintf("k=%d", k)})
+			e.close()
+			tr.CloseIdleConnections()
+		}
 	}
 }
